@@ -439,7 +439,14 @@ pub fn check_bytes(fmt: u8, bytes: &[u8]) -> Result<&'static str, Failure> {
             })
         }
     });
-    let show = || String::from_utf8_lossy(bytes).to_string();
+    let show = || {
+        let t = String::from_utf8_lossy(bytes).to_string();
+        if t.len() > 700 {
+            format!("{} ... [{} bytes in all] ... {}", t.chars().take(300).collect::<String>(), bytes.len(), t.chars().rev().take(300).collect::<Vec<_>>().into_iter().rev().collect::<String>())
+        } else {
+            t
+        }
+    };
     let got = match got {
         Err(p) => return Err(Failure::new(format!("C13/{}/panic", name), format!("{} on input {:?}", p, show()))),
         Ok(g) => g,
